@@ -2,10 +2,14 @@ package c11
 
 import (
 	"fmt"
+	"os"
+	"strconv"
 	"strings"
+	"time"
 
 	"github.com/moorara/algo/parser/lr"
 
+	"verifharness/c10"
 	"verifharness/gx"
 	"verifharness/hx"
 )
@@ -339,6 +343,26 @@ func quoteSome(r *hx.Rand, g gx.G) gx.G {
 	return out
 }
 
+// plainNames undoes quoteSome (c10.Rename expects plain words).
+func plainNames(g gx.G) gx.G {
+	h := cloneGX(g)
+	fix := func(w string) string {
+		if strings.HasPrefix(w, "'") {
+			return "q" + w[1:]
+		}
+		return w
+	}
+	for i, t := range h.Terms {
+		h.Terms[i] = fix(t)
+	}
+	for _, p := range h.Prods {
+		for i, x := range p.Body {
+			p.Body[i] = fix(x)
+		}
+	}
+	return h
+}
+
 func randomReduced(r *hx.Rand, o gx.GenOpts) gx.G {
 	for {
 		g := gx.Random(r, o)
@@ -397,12 +421,148 @@ func ternaryCase(r *hx.Rand, shuffle int) hx.Case {
 	return c
 }
 
+// sizeSweep: the threshold-sweep families of size.go.  Quick: every dimension at 63/64/65 (which of the three rotates with
+// the seed) with the Model, the kernel-item dimension at 257+ (oracle only) on every run, one more dimension at 257 (which
+// one rotates with the seed), the cheap dimensions (precedence levels, input length, stack depth) at 1023/1024/1025 and
+// 2049; thorough: every dimension at 1, 2, 63, 64, 65 and 255, 256, 257, the cheap ones up to 65537.
+func sizeSweep(run *hx.Run, next func() int) {
+	all := []string{"slr", "lalr", "lr1"}
+	seed := int(run.Seed % 1000)
+	r := run.R.Fork("lrsize")
+	small := []int{63, 64, 65}
+	pick := small[seed%3]
+	do := func(fam string, n int, ks []string, checks, asts, noModel bool) {
+		timed(run, "lrsize", sizeCase(fam, n, ks, next(), checks, asts, noModel), Exec)
+	}
+	if !run.Thorough() {
+		lowPick := []int{31, 32, 33}[seed%3]
+		do("kw", pick, all, true, true, false)
+		do("fan", pick, all, true, true, false)
+		do("la", pick, []string{"lalr", "lr1"}, true, true, false)
+		do("body", pick, all, false, true, false)
+		do("chain", lowPick, all, true, true, false)                 // LALR on a unit chain of 65 takes a second, of 129 five
+		do("eps", []int{15, 16, 17}[seed%3], all, true, true, false) // LR(1) on 64 nullable symbols in a row takes five
+		for _, n := range []int{1023, 1024, 1025} {
+			do([]string{"right", "left", "paren"}[(seed+n)%3], n, []string{all[(seed+n)%3]}, false, true, false)
+		}
+		do("paren", 2049, []string{"lalr"}, false, true, false)
+		timed(run, "resolve", precSizeCase([]int{64, 65, 257}[seed%3], next()), Exec)
+		// (operator grammars are the library's worst case: 6 operators take 1.4 s, 8 take 7 s, 9 take 13 s, 12 more than the
+		// watchdog allows; the random expr family above has up to 4)
+		timed(run, "expr", manyOpsCase(r, 5, next(), false), Exec)
+		// The rest is skipped in the statement-coverage measurement of bin/check, which replays the quick tier with an
+		// instrumented binary: the cases above execute the same statements.
+		if os.Getenv("GOCOVERDIR") != "" {
+			return
+		}
+		// the kernel-item dimension beyond 256 (ComputeLALR1Kernels indexes kernel items by their position in the state)
+		do("kw", []int{257, 258, 260}[seed%3], []string{"lalr"}, false, false, true)
+		// one more dimension beyond 256, cheapest constructions only
+		switch seed % 3 {
+		case 0:
+			do("fan", 257, []string{"slr"}, false, false, true)
+		case 1:
+			do("la", 257, []string{"lr1"}, false, false, true)
+		case 2:
+			do("chain", 257, []string{"slr"}, false, false, true)
+		}
+		do("left", 65537, []string{"slr"}, false, false, false)
+		timed(run, "resolve", precSizeCase([]int{1024, 1025, 1023}[seed%3], next()), Exec)
+		return
+	}
+	for _, fam := range []string{"kw", "fan", "la", "chain", "body"} {
+		for _, n := range []int{1, 2, 63, 64, 65} {
+			if fam == "chain" && n > 33 {
+				do(fam, n, []string{"slr", "lr1"}, true, true, false)
+				continue
+			}
+			do(fam, n, all, fam != "body", true, false)
+		}
+	}
+	for _, n := range []int{1, 2, 15, 16, 17, 31, 32, 33} {
+		do("eps", n, all, true, true, false)
+	}
+	do("eps", 64, []string{"slr"}, false, true, false)
+	do("eps", 65, []string{"lr1"}, false, false, true)
+	for _, n := range []int{31, 32, 33} {
+		do("chain", n, all, true, true, false)
+	}
+	do("chain", 65, []string{"lalr"}, false, false, true)
+	// around 256: the kernel-item dimension with every construction (257 with the Model: half a minute of driver time),
+	// the others with the constructions that stay in the seconds there
+	do("kw", 255, []string{"lalr"}, false, false, true)
+	do("kw", 256, all, false, false, true)
+	do("kw", 257, all, false, false, false)
+	do("kw", 258, []string{"lalr"}, false, false, true)
+	do("kw", 300, []string{"slr", "lalr"}, false, false, true)
+	do("fan", 255, []string{"slr"}, false, false, true)
+	do("fan", 256, all, false, false, false)
+	do("fan", 257, []string{"lalr", "lr1"}, false, false, true)
+	for _, n := range []int{255, 256, 257} {
+		do("la", n, []string{"slr", "lr1"}, false, false, n != 257)
+	}
+	for _, n := range []int{256, 257} {
+		do("chain", n, []string{"slr", "lr1"}, false, false, true)
+		do("body", n, []string{[]string{"slr", "lalr", "lr1"}[n%3]}, false, false, true)
+	}
+	do("fan", 1025, []string{"slr"}, false, false, true)
+	for _, fam := range []string{"right", "left", "paren"} {
+		for i, n := range []int{0, 1, 1023, 1024, 1025, 2047, 2048, 2049, 4097} {
+			do(fam, n, []string{all[i%3]}, false, true, false)
+		}
+		// (the Model's driver takes half a minute and more for 65537 tokens on the two that nest)
+		do(fam, 65537, []string{"slr"}, false, false, fam != "left")
+		do(fam, 70000, []string{"lalr"}, false, false, true)
+	}
+	for _, n := range []int{1, 2, 63, 64, 65, 255, 256, 257, 1023, 1024, 1025} {
+		timed(run, "resolve", precSizeCase(n, next()), Exec)
+	}
+	for _, n := range []int{5, 6, 7, 8} {
+		timed(run, "expr", manyOpsCase(r, n, next(), n == 8), Exec)
+	}
+}
+
+// timed is run.Do with the seconds spent per component recorded in the statistics (`seconds_by_component`; for the
+// size sweep per family and size as well: `seconds_by_size_case`).
+func timed(run *hx.Run, component string, c hx.Case, exec hx.Exec) hx.Result {
+	t0 := time.Now()
+	res := run.Do(component, c, exec)
+	d := time.Since(t0).Seconds()
+	add := func(key, k string) {
+		m, _ := run.Stats.Extra[key].(map[string]float64)
+		if m == nil {
+			m = map[string]float64{}
+			run.Stats.Extra[key] = m
+		}
+		m[k] = float64(int((m[k]+d)*100+0.5)) / 100
+	}
+	add("seconds_by_component", component)
+	if v := hx.HeaderGet(c.Header, "size"); v != "" {
+		add("seconds_by_size_case", v)
+	}
+	return res
+}
+
 func Main(run *hx.Run) {
 	run.Stats.Rule = Rule
+	// development aid: VERIF_C11_SIZE=fam:n:kind,kind[:nomodel] runs that one threshold case only
+	if spec := os.Getenv("VERIF_C11_SIZE"); spec != "" {
+		f := strings.Split(spec, ":")
+		if n, err := strconv.Atoi(f[1]); err == nil && f[0] == "ops" {
+			t0 := time.Now()
+			res := timed(run, "expr", manyOpsCase(run.R.Fork("x"), n, 1, false), Exec)
+			fmt.Printf("%s: %.2fs bad=%d %s\n", spec, time.Since(t0).Seconds(), res.BadOp, res.What)
+		} else if err == nil && len(f) >= 3 {
+			t0 := time.Now()
+			res := timed(run, "lrsize", sizeCase(f[0], n, strings.Split(f[2], ","), 1, len(f) > 4, len(f) > 4, len(f) > 3 && f[3] == "nomodel"), Exec)
+			fmt.Printf("%s: %.2fs bad=%d %s\n", spec, time.Since(t0).Seconds(), res.BadOp, res.What)
+		}
+		return
+	}
 	for _, f := range hx.CorpusFiles("C11") {
 		cs, _ := hx.ReadReplay(f)
 		for _, c := range cs {
-			run.Do(hx.HeaderGet(c.Header, "comp"), c, Exec)
+			timed(run, hx.HeaderGet(c.Header, "comp"), c, Exec)
 		}
 	}
 	shuffle := 1
@@ -419,7 +579,7 @@ func Main(run *hx.Run) {
 	// hand-written boundary family, every string up to the bound, with state dumps
 	for _, s := range boundary {
 		g := parseBoundary(s)
-		run.Do("lr", plainCase(g, next(), 400, true), Exec)
+		timed(run, "lr", plainCase(g, next(), 400, true), Exec)
 	}
 
 	// random reduced grammars
@@ -431,7 +591,35 @@ func Main(run *hx.Run) {
 			o = small
 		}
 		g := randomReduced(r, o)
-		run.Do("lr", plainCase(g, next(), 400, k%4 == 0), Exec)
+		c := plainCase(g, next(), 400, k%4 == 0)
+		// Axis 3: two grammars out of five get their symbols renamed into one of the name schemes of harness/c10
+		// (names that are concatenations of each other, look like written terminals, end in the primes `augment`
+		// appends, are empty / blank / the endmarker's "$" / ε, contain spaces, or coincide between the two kinds)
+		if h, scheme := c10.MaybeRename(r, plainNames(g), k); scheme != "plain" && validGrammar(h) && h.Reduced() {
+			c = plainCase(h, next(), 400, k%4 == 0)
+			c.Header += " names=" + scheme
+		}
+		timed(run, "lr", c, Exec)
+	}
+
+	// Axis 2: the same grammar object for every construction, bodies that share backing arrays, the grammar edited in
+	// place between constructions, parser objects reused, the end of input signalled in other legal ways, a failing lexer
+	ru := run.R.Fork("lruse")
+	for _, s := range sharedBodies {
+		for _, layout := range []string{"arena", "prefix"} {
+			timed(run, "lruse", useCase(ru, parseBoundary(s), next(), layout), Exec)
+		}
+	}
+	shared := gx.GenOpts{MaxNonTerms: 3, MaxTerms: 3, MaxAlts: 3, MaxBody: 3, EpsChance: 15, UnitChance: 20, LeftRec: 15, CommonPref: 60}
+	for k, n := 0, scale(18); k < n; k++ {
+		o := shared
+		if k%3 == 0 {
+			o = small
+		}
+		timed(run, "lruse", useCase(ru, randomReduced(ru, o), next(), ""), Exec)
+	}
+	for k, n := 0, scale(3); k < n; k++ {
+		timed(run, "lruse", useCase(ru, parseBoundary(hx.Pick(ru, boundary)), next(), ""), Exec)
 	}
 
 	// operator grammars with random level assignments
@@ -458,26 +646,29 @@ func Main(run *hx.Run) {
 				assoc = append(assoc, hx.Pick(re, []string{"left", "left", "left", "right", "right", "none"}))
 			}
 		}
-		run.Do("expr", exprCase(ops, levels, assoc, randomExprs(re, ops, 8), next()), Exec)
+		timed(run, "expr", exprCase(ops, levels, assoc, randomExprs(re, ops, 8), next()), Exec)
 	}
 
 	// ternary operator with precedence levels
 	rt3 := run.R.Fork("ternary")
 	for k, n := 0, scale(25); k < n; k++ {
-		run.Do("ternary", ternaryCase(rt3, next()), Exec)
+		timed(run, "ternary", ternaryCase(rt3, next()), Exec)
 	}
 
 	// resolveConflict / Compare directly
 	rr := run.R.Fork("resolve")
 	for k, n := 0, scale(100); k < n; k++ {
-		run.Do("resolve", resolveCase(rr, next()), Exec)
+		timed(run, "resolve", resolveCase(rr, next()), Exec)
 	}
 
 	// random grammars with random levels
 	rp := run.R.Fork("lrprec")
 	for k, n := 0, scale(40); k < n; k++ {
-		run.Do("lrprec", precGrammarCase(rp, randomReduced(rp, small), next()), Exec)
+		timed(run, "lrprec", precGrammarCase(rp, randomReduced(rp, small), next()), Exec)
 	}
+
+	// Axis 1: size thresholds
+	sizeSweep(run, next)
 
 	if run.Thorough() {
 		// every assignment of ≤3 operators to ordered levels with every associativity, and of 4 operators with
@@ -497,7 +688,7 @@ func Main(run *hx.Run) {
 					for i, k := range idx {
 						as[i] = assocs[k]
 					}
-					run.Do("expr", exprCase(ops, levels, as, randomExprs(rt, ops, 6), next()), Exec)
+					timed(run, "expr", exprCase(ops, levels, as, randomExprs(rt, ops, 6), next()), Exec)
 					count++
 					i := len(idx) - 1
 					for i >= 0 {
@@ -534,7 +725,7 @@ func Main(run *hx.Run) {
 						continue
 					}
 					enum++
-					run.Do("lr", plainCase(g, next(), 300, false), Exec)
+					timed(run, "lr", plainCase(g, next(), 300, false), Exec)
 				}
 			}
 		}
